@@ -53,8 +53,19 @@ package bufmodulestore
 //@   ensures stored-or-already-complete: retErr == nil ==> ghost.u_sawComplete || (len(ghost.lastPutOptions) == 1 && ghost.lastPutOptions[0] == storage.PutWithAtomic() && externalModuleDataFileName in ghost.sinkPaths)
 //
 //@ trusted func (p *moduleDataStore) logDebugModuleKey(ctx, moduleKey, message, fields)
-//@ trusted pure func getModuleDataStoreDirPath(moduleKey) (r, err)
-//@ trusted pure func getModuleDataStoreDirLockPath(moduleKey) (r, err)
+//@ pure func getModuleDataStoreDirPath(moduleKey) (r, err)
+//@   property C09
+//@   use rh_join5
+//@   reveal rh_cleanKey
+//@   ensures clean-key-path: rh_cleanKey(moduleKey) ==> err == nil && r == rh_path5(first(moduleKey.Digest()).Type().String(), moduleKey.FullName().Registry(), moduleKey.FullName().Owner(), moduleKey.FullName().Name(), uuidutil.ToDashless(moduleKey.CommitID()))
+//@   ensures error-is-the-digest-error: err == second(moduleKey.Digest())
+//@   ensures no-path-on-error: err != nil ==> r == ""
+//@   ensures function-of-key-components: err == nil ==> r == normalpath.Join(first(moduleKey.Digest()).Type().String(), moduleKey.FullName().Registry(), moduleKey.FullName().Owner(), moduleKey.FullName().Name(), uuidutil.ToDashless(moduleKey.CommitID()))
+//@ pure func getModuleDataStoreDirLockPath(moduleKey) (r, err)
+//@   property C09
+//@   ensures lock-file-next-to-the-directory: err == nil ==> r == first(getModuleDataStoreDirPath(moduleKey)) + externalModuleDataLockFileExt
+//@   ensures error-is-the-dir-path-error: err == second(getModuleDataStoreDirPath(moduleKey))
+//@   ensures no-path-on-error: err != nil ==> r == ""
 //@ trusted pure interface bufmodule.ModuleKey
 //@ trusted pure func (bufmodule.ModuleData) ModuleKey() (r)
 //@ trusted pure interface bufmodule.ObjectData
